@@ -34,7 +34,11 @@ class Walker:
         ctx = rg.Ctx(ctx.cons, ctx.atoms, ctx.vars)
         for s in stmts:
             if isinstance(s, ast.For):
-                cons, vs = rg.loop_constraints(s, {})
+                try:
+                    cons, vs = rg.loop_constraints(s, {})
+                except AnalysisError:
+                    # a loop over something else than index ranges (tables, values): its variables are unconstrained
+                    cons, vs = [], [n.id for n in ast.walk(s.target) if isinstance(n, ast.Name)]
                 self.hits.append((ctx, s.iter))
                 self.block(s.body, ctx.ext(cons, (), vs))
             elif isinstance(s, ast.If):
